@@ -5,7 +5,7 @@ A check that answers exit 1 on one of these edits is a false alarm."""
 import sys, os, subprocess, json, time, shutil, re
 from concurrent.futures import ThreadPoolExecutor
 VERIF = '/verif'; REPO = '/repo'; SCR = '/tmp/verif-harmless'
-PROPS = {'H1': ['C10', 'C07'], 'H2': ['C02', 'C18'], 'H3': ['C06', 'C05'], 'H4': ['C08', 'C19'], 'H5': ['C13'], 'H6': ['C13'], 'H7': ['C04', 'C16'], 'H8': ['C14'], 'H9': ['C14'], 'H10': ['C08'], 'H11': ['C04']}
+PROPS = {'H1': ['C10', 'C07'], 'H2': ['C02', 'C18'], 'H3': ['C06', 'C05'], 'H4': ['C08', 'C19'], 'H5': ['C13'], 'H6': ['C13'], 'H7': ['C04', 'C16'], 'H8': ['C14'], 'H9': ['C14'], 'H10': ['C08'], 'H11': ['C04'], 'H12': ['C10', 'C11']}
 def sh(cmd, **kw): return subprocess.run(cmd, shell=True, capture_output=True, text=True, **kw)
 def run(name):
     hid = name.split('-')[0]; base = os.path.join(SCR, hid); shutil.rmtree(base, ignore_errors=True); os.makedirs(base)
